@@ -210,7 +210,7 @@ def run(tier: str) -> int:
     if not cases:
         raise tlc.TLCError("Kernel model emitted no cases")
     if tier == "thorough":
-        resb = tlc.run_model("Kernel", f"{PID}_model_full", constants=dict(kc.KERNEL_CONSTANTS_SMALL, Ns={6}, Ls={1, 2, 3, 4, 5, 6}, Kmax=2, DataSet="full"),
+        resb = tlc.run_model("Kernel", f"{PID}_model_full", constants=dict(kc.KERNEL_CONSTANTS_SMALL, Ns={6}, Ls={1, 2, 3, 4, 5}, Kmax=2, DataSet="full"),
                              invariants=kc.KERNEL_INVARIANTS, timeout=14400)
         if resb.violated:
             raise tlc.TLCError(f"Kernel.tla (full data set) violates {resb.violated}")
